@@ -249,7 +249,7 @@ def pGadget : P Gadget := do
     | _ => pure { model := Tools.les a b t f w, spec := fun ρ => sel ρ (toInt w (x ρ) ≤ toInt w (y ρ)) }
   | "maskbits" => do
     let w ← pNat; let cnt ← pNat; let e ← pExpr
-    pure { model := Tools.maskBits e cnt w, ok := Tools.bitMaskOk cnt w,
+    pure { model := Tools.maskBits e cnt w,
            spec := fun ρ => some (Spec.mask w (ev ρ e) cnt) }
   | "intnegative" => do
     let w ← pNat; let e ← pExpr
